@@ -6,6 +6,7 @@ pub mod c19;
 pub mod c07;
 pub mod c10;
 pub mod c12;
+pub mod c11;
 pub mod c14;
 pub mod c15;
 pub mod c13;
@@ -27,6 +28,7 @@ pub fn run(prop: &str, ctx: &mut Ctx) -> bool {
         "C07" => c07::run(ctx),
         "C10" => c10::run(ctx),
         "C12" => c12::run(ctx),
+        "C11" => c11::run(ctx),
         "C01" | "C02" | "C03" | "C04" => {
             let n = ctx.budget(72, 12); qrig::standard_histories(ctx, &prop.to_lowercase(), n);
             if prop == "C03" && ctx.tier_thorough {
